@@ -3,7 +3,7 @@ From Coq Require Import List NArith Arith Bool Lia String.
 From GV Require Import Base.Ints Gen.Math Gen.Kernel Model.Mirror
   Proofs.Thresholds Proofs.MirrorAuth Proofs.MirrorNoop Proofs.MirrorChain Proofs.MirrorCert
   Proofs.MirrorTotal Proofs.MirrorRestart Proofs.MirrorLog
-  Proofs.MirrorResumeLoad Proofs.MirrorResumeInv Proofs.MirrorResumeStart Proofs.MirrorResumeOps.
+  Proofs.MirrorResumeLoad Proofs.MirrorResumeRT Proofs.MirrorResumeInv Proofs.MirrorResumeStart Proofs.MirrorResumeOps.
 Import ListNotations.
 Local Open Scope N_scope.
 
@@ -52,9 +52,47 @@ Proof.
   intros ((C1&C2&C3&C4)&_&_&Fc&_&Fh&_). unfold comvals. rewrite <- Fc, <- C3, <- C1, <- Fh. intros H; exact H.
 Qed.
 
-Lemma kok_frame s s' :
-  v_phs (k_vot s') = v_phs (k_vot s) -> v_phs (k_nxt s') = v_phs (k_nxt s) -> kok s -> kok s'.
-Proof. intros E1 E2. unfold kok. rewrite E1, E2. intros H; exact H. Qed.
+Lemma kok0_frame s s' :
+  v_phs (k_vot s') = v_phs (k_vot s) -> v_phs (k_nxt s') = v_phs (k_nxt s) -> kok0 s -> kok0 s'.
+Proof. intros E1 E2. unfold kok0. rewrite E1, E2. intros H; exact H. Qed.
+
+Lemma wrap32_succ_neq r : wrap32 (r + 1) <> r.
+Proof.
+  unfold wrap32. intros E. destruct (N.lt_ge_cases r two32) as [Hlt|Hge].
+  - destruct (N.eq_dec (r + 1) two32) as [E1|Hne].
+    + rewrite E1, N.mod_same in E by (unfold two32; lia). unfold two32 in *. lia.
+    + rewrite N.mod_small in E by lia. lia.
+  - assert ((r + 1) mod two32 < two32) by (apply N.mod_upper_bound; unfold two32; lia). lia.
+Qed.
+
+Lemma fold_pm_set_nd ups : forall pm : pmap, nd_pmap pm -> nd_pmap ups ->
+  nd_pmap (fold_left (fun m e => pm_set m (fst e) (snd e)) ups pm).
+Proof.
+  induction ups as [|[t p] ups IH]; intros pm Hpm Hu; cbn [fold_left]; [exact Hpm|].
+  apply IH.
+  - intros t' p' Hin. apply pm_set_in in Hin as [Heq|Hin]; [inversion Heq; subst; apply (Hu t p); left; reflexivity|exact (Hpm _ _ Hin)].
+  - intros t' p' Hin. apply (Hu t' p'). right; exact Hin.
+Qed.
+
+Lemma build_updates_nd kind v toadd : nd_pmap (view_votes kind v) -> nd_pmap (fst (build_updates kind v toadd)).
+Proof.
+  intros Hv. unfold build_updates.
+  assert (G : forall l ups allv, nd_pmap ups ->
+    nd_pmap (fst (fold_left (fun acc e =>
+      let '(ups, allv) := acc in
+      let base := match pm_get (view_votes kind v) (fst e) with Some p => p | None => [] end in
+      let '(p', av, inc) := merge_sparse kind (v_h v) (v_r v) (fst e) (vs_keys (v_vals v)) base (snd e) in
+      (if inc then pm_set ups (fst e) p' else ups, allv && av)) l (ups, allv)))).
+  { induction l as [|e l IH]; intros ups allv Hu; cbn [fold_left]; [exact Hu|].
+    cbv zeta.
+    assert (Hb : nd_proof (match pm_get (view_votes kind v) (fst e) with Some p => p | None => [] end)).
+    { destruct (pm_get (view_votes kind v) (fst e)) eqn:Eg; [exact (Hv _ _ (pm_get_in _ _ _ Eg))|constructor]. }
+    pose proof (merge_sparse_nd kind (v_h v) (v_r v) (fst e) (vs_keys (v_vals v)) _ (snd e) Hb) as Hm.
+    destruct (merge_sparse kind (v_h v) (v_r v) (fst e) (vs_keys (v_vals v)) _ (snd e)) as [[p' av] inc]. cbn [fst] in Hm.
+    destruct inc; apply IH; [|exact Hu].
+    intros t' q Hin. apply pm_set_in in Hin as [Heq|Hin]; [inversion Heq; subst; exact Hm|exact (Hu _ _ Hin)]. }
+  apply G. intros t p [].
+Qed.
 
 (** positions: the committing height is below the voting height; a header store that is not
     empty means there is a committing header *)
@@ -75,10 +113,10 @@ Lemma K_apply_votes ih ivs kind s vid h r ups s' :
   find_view (kpos_of s) h r = Ok (vid, ViewFound) ->
   K ih ivs s -> ups <> [] ->
   auth_pmap (vs_keys (v_vals (get_view s vid))) kind (v_h (get_view s vid)) (v_r (get_view s vid)) ups ->
-  ne_pmap ups ->
+  ne_pmap ups -> (vid = ViewIDVoting \/ vid = ViewIDNextRound -> nd_pmap ups) ->
   apply_votes kind s vid h r ups = Ok s' -> K ih ivs s' /\ pref ih ivs s s'.
 Proof.
-  intros Hk Hfv (HI&HP&HX) Hune Hu Hne Happ.
+  intros Hk Hfv (HI&HP&HX) Hune Hu Hne Hund Happ.
   pose proof HI as (Hc&Ha&Hs&Hh).
   destruct HX as (Xc&(Nc&Nv&Nn)&(N1v&N1n)&Xk&Xs).
   pose proof (find_view_found _ _ _ _ _ Hfv eq_refl) as Hcase. cbn in Hcase.
@@ -219,7 +257,52 @@ Proof.
       - split; [apply Hn1v2; exact N1v|apply Hn1old; exact N1n].
       - split; [apply Hn1old; exact N1v|apply Hn1v2; exact N1n].
       - split; [apply Hn1old; exact N1v|apply Hn1old; exact N1n]. }
-    split; [eapply kok_frame; [apply Ephs|apply Ephs|exact Xk]|exact S2]. }
+    split; [|exact S2].
+    split; [eapply kok0_frame; [apply Ephs|apply Ephs|exact (proj1 Xk)]|].
+    destruct Xk as [_ [Yv Yn]].
+    assert (Er2 : st_rounds s2 = rs_set (st_rounds s) h r e') by (apply (f_equal sr_rounds) in Est; exact Est).
+    assert (Hrp2 : st_replayed s2 = st_replayed s) by (apply (f_equal sr_replayed) in Est; exact Est).
+    assert (Hother : forall w, ((h =? v_h w) && (r =? v_r w)) = false ->
+              yview (st_rounds s) (st_replayed s) w -> yview (st_rounds s2) (st_replayed s2) w).
+    { intros w Hcw Hw. rewrite Er2, Hrp2. eapply yview_mono; [| | | |exact Hw]; rewrite ?rs_entry_set, ?Hcw; try reflexivity;
+        intros x Hx; exact Hx. }
+    assert (Hupd : nd_pmap ups -> yview (st_rounds s) (st_replayed s) v -> yview (st_rounds s2) (st_replayed s2) v2).
+    { intros Hund' ((A1&A2)&(B1&B2)&YC&YD&YE&YF). rewrite Er2, Hrp2.
+      assert (Hwf' : votes_wf votes').
+      { unfold votes', view_votes. destruct (kind =? KPrevote).
+        - split; [apply fold_pm_set_keys_nodup; exact A1|apply fold_pm_set_nd; assumption].
+        - split; [apply fold_pm_set_keys_nodup; exact B1|apply fold_pm_set_nd; assumption]. }
+      unfold yview, phs_corr. replace (v_h v2) with h by (rewrite <- Mh; apply Hpos). replace (v_r v2) with r by (rewrite <- Mr; apply Hpos).
+      rewrite rs_entry_set, !N.eqb_refl. cbn [andb].
+      unfold phs_corr in YF. rewrite Mh, Mr in YD, YE, YF. fold e in YD, YE, YF.
+      unfold e', coll, v2, sm', v1. destruct Hk as [Ek|Ek]; subst kind;
+        cbn [N.eqb KPrevote KPrecommit Pos.eqb re_pv re_pc re_phs bump with_sum with_pv with_pc v_pv v_pc v_sum v_h v_r v_vals v_phs].
+      - split; [exact Hwf'|]. split; [split; assumption|]. split.
+        { unfold mpc_ok in *. cbn [bump with_sum with_pv v_sum v_vals v_pc]. unfold sum_set_prevotes.
+          destruct (set_powers (vs_pows (v_vals v)) votes') as [[t0 b0] m0]. exact YC. }
+        split.
+        { apply (vrel_written KPrevote (mk_view (v_h v) (v_r v) (v_vals v) (v_phs v) votes' (v_pc v) (v_pcp v)
+                   (sum_set_prevotes (v_sum v) (vs_pows (v_vals v)) votes') (wrap32 (v_ver v + 1)))); cbn; try assumption. exact (proj2 Hwf'). }
+        split; [exact YE|exact YF].
+      - split; [split; assumption|]. split; [exact Hwf'|]. split.
+        { unfold mpc_ok. cbn [bump with_sum with_pc v_sum v_vals v_pc]. unfold sum_set_precommits.
+          destruct (set_powers (vs_pows (v_vals v)) votes') as [[t0 b0] m0]. reflexivity. }
+        split; [exact YD|]. split; [|exact YF].
+        apply (vrel_written KPrecommit (mk_view (v_h v) (v_r v) (v_vals v) (v_phs v) (v_pv v) votes' (v_pcp v)
+                   (sum_set_precommits (v_sum v) (vs_pows (v_vals v)) votes') (wrap32 (v_ver v + 1)))); cbn; try assumption. exact (proj2 Hwf'). }
+    assert (Evot2 : k_vot s2 = if vid =? ViewIDVoting then v2 else k_vot s).
+    { unfold s2, s1, put_view. destruct (vid =? ViewIDVoting); [|destruct (vid =? ViewIDCommitting)]; reflexivity. }
+    assert (Enxt2 : k_nxt s2 = if vid =? ViewIDVoting then k_nxt s else if vid =? ViewIDCommitting then k_nxt s else v2).
+    { unfold s2, s1, put_view. destruct (vid =? ViewIDVoting); [|destruct (vid =? ViewIDCommitting)]; reflexivity. }
+    unfold Y. rewrite Evot2, Enxt2. unfold v in Hupd. unfold get_view in Hupd.
+    assert (Hne32 := wrap32_succ_neq (v_r (k_vot s))).
+    destruct Hcase as [(A&B&C)|[(A&B&C)|(A&B&C&D)]]; subst vid;
+      cbn [N.eqb ViewIDVoting ViewIDNextRound ViewIDCommitting Pos.eqb] in *.
+    - split; [apply Hupd; [apply Hund; left; reflexivity|exact Yv]|]. apply Hother; [|exact Yn].
+      rewrite Hnr, C. destruct (N.eqb_spec (v_r (k_vot s)) (wrap32 (v_r (k_vot s) + 1))) as [E|_]; [congruence|]. apply andb_false_r.
+    - split; [|apply Hupd; [apply Hund; right; reflexivity|exact Yn]]. apply Hother; [|exact Yv].
+      rewrite C. destruct (N.eqb_spec (wrap32 (v_r (k_vot s) + 1)) (v_r (k_vot s))) as [E|_]; [congruence|]. apply andb_false_r.
+    - split; apply Hother; try assumption; rewrite ?Hnh; destruct (N.eqb_spec h (v_h (k_vot s))) as [E|_]; try contradiction; reflexivity. }
   assert (Pr2 : pref ih ivs s s2).
   { apply (pref_one ih ivs s s2 (if kind =? KPrevote then WPV h r coll else WPC h r coll)); [| |exact Xs|exact S2|eapply adv_sadv; [exact Hc|exact (proj1 I2)|apply adv_frame; exact F]|destruct (kind =? KPrevote); reflexivity].
     - unfold s2, s1, put_view. destruct (vid =? ViewIDVoting); [|destruct (vid =? ViewIDCommitting)]; reflexivity.
